@@ -89,6 +89,11 @@ func findCurrentLastKeyInSequence(wb WriteBatch, req *proto.PutRequest) ([]strin
 		lastKeyInSequence = ""
 	} else {
 		lastKeyInSequence = strings.TrimPrefix(lastKeyInSequence, prefixKey)
+		if !strings.HasPrefix(lastKeyInSequence, "-") {
+			// A key of another prefix that merely starts with this one (e.g. "p+-<n>"
+			// sorts right below "p-<n>"): this sequence has no key yet
+			lastKeyInSequence = ""
+		}
 	}
 
 	parts := strings.Split(lastKeyInSequence, "-")[1:]
